@@ -9,7 +9,7 @@
 //! message, every observed data shape satisfies the environment assumption `shape_wf`.
 use crate::rng::Rng;
 use crate::tuikit::*;
-use trippy_tui::verif_frontend::TuiApp;
+use trippy_tui::verif_frontend::{GeoIpMode, TuiApp};
 use crate::{Args, Out};
 use std::collections::BTreeSet;
 use std::panic::{catch_unwind, AssertUnwindSafe};
@@ -69,6 +69,18 @@ pub fn c17_hooks() -> Hooks {
             cols: c.cols.clone(),
             privacy: c.privacy,
             max_addrs: c.max_addrs,
+            // every second case runs with a real (generated) MaxMind DB: the map, the hop details and the GeoIP columns then go
+            // through the real reader and the lookup cache (most first octets are located, some have no coordinates, some are absent)
+            geoip_db: if c.ops.len() % 2 == 0 {
+                Some(crate::tuikit::first_octet_mmdb(&|v| match v % 4 {
+                    0 => None,
+                    1 => Some(crate::tuikit::GeoRec { city: Some(format!("City{v}")), country_code: Some("XX".to_string()), ..Default::default() }),
+                    _ => Some(crate::tuikit::GeoRec { lat: Some(f64::from(v) / 2.0 - 60.0), long: Some(f64::from(v) - 120.0), radius: Some(u16::from(v)), city: Some(format!("City{v}")),
+                        sub: Some("Region".to_string()), sub_code: Some("RG".to_string()), country: Some("Country".to_string()), country_code: Some("CC".to_string()), continent: Some("Continent".to_string()) }),
+                }))
+            } else { None },
+            geoip_file: if c.ops.len() % 2 == 0 { Some("generated.mmdb".to_string()) } else { None },
+            geoip_mode: if c.ops.len() % 2 == 0 { [GeoIpMode::Short, GeoIpMode::Long, GeoIpMode::Location, GeoIpMode::Off][c.ops.len() / 2 % 4] } else { GeoIpMode::Off },
             ..Setup::default()
         }),
         seed: Box::new(|app, id| {
